@@ -110,3 +110,47 @@ func VH_C10_history_07_longlat7_wgs84() { vHistoryLight(vPairs[7]); vReach("end"
 func VH_C10_history_08_tmerc7_wgs84() { vHistoryLight(vPairs[8]); vReach("end") }
 func VH_C10_history_09_axisneu_merc() { vHistory(vPairs[9]); vReach("end") }
 func VH_C10_history_10_longlat_aea_usft() { vHistoryLight(vPairs[10]); vReach("end") }
+
+// ---- inductive form: a call leaves the state a transformer reads unchanged ----
+//
+// vSnapshot records everything reachable from the transformer closure (its
+// captured variables), from both spatial references, and from the package's
+// global variables. The transformer is first called once with a concrete input
+// (initialisations that happen on first use — projection constants stored in
+// the SR — are idempotent and allowed); from that state one call with a free
+// input must leave every reachable scalar and pointer exactly as it was. With
+// that, every later call of any history starts from this same state; that the
+// first call (from the freshly built state) already returns what later calls
+// return is the behavioural part (vHistory/vHistoryLight above).
+// A state change is only a candidate: it is a violation when the native run of
+// the same harness shows a repeated call or a fresh transformer disagreeing.
+func vStateStep(pair [2]int) {
+	a, b := vMustParse(vDefs[pair[0]]), vMustParse(vDefs[pair[1]])
+	t, err := a.NewTransform(b)
+	vAssert(err == nil, "newtransform-succeeds")
+	vCall(t, 1.5, 2.5)
+	x, y := vFloat64(), vFloat64()
+	snap := vSnapshot(t, a, b)
+	first := vCall(t, x, y)
+	vAssert(!first.pan, "transformer-does-not-panic")
+	vAssertCandidate(vSnapshotSame(snap, t, a, b), "call-leaves-transformer-state-unchanged")
+	if vNative() {
+		second := vCall(t, x, y)
+		a2, b2 := vMustParse(vDefs[pair[0]]), vMustParse(vDefs[pair[1]])
+		t2, _ := a2.NewTransform(b2)
+		fresh := vCall(t2, x, y)
+		vAssert(vSameRes(first, second) && vSameRes(first, fresh), "call-leaves-transformer-state-unchanged")
+	}
+}
+
+func VH_C10_state_00_longlat_merc() { vStateStep(vPairs[0]); vReach("end") }
+func VH_C10_state_01_merc_longlat() { vStateStep(vPairs[1]); vReach("end") }
+func VH_C10_state_02_utm_utm() { vStateStep(vPairs[2]); vReach("end") }
+func VH_C10_state_03_lcc_longlat() { vStateStep(vPairs[3]); vReach("end") }
+func VH_C10_state_04_longlat_lcc() { vStateStep(vPairs[4]); vReach("end") }
+func VH_C10_state_05_tmerc7_utm3() { vStateStep(vPairs[5]); vReach("end") }
+func VH_C10_state_06_utm3_tmerc7() { vStateStep(vPairs[6]); vReach("end") }
+func VH_C10_state_07_longlat7_wgs84() { vStateStep(vPairs[7]); vReach("end") }
+func VH_C10_state_08_tmerc7_wgs84() { vStateStep(vPairs[8]); vReach("end") }
+func VH_C10_state_09_axisneu_merc() { vStateStep(vPairs[9]); vReach("end") }
+func VH_C10_state_10_longlat_aea_usft() { vStateStep(vPairs[10]); vReach("end") }
